@@ -41,7 +41,7 @@ impl Host for StdHost {
 }
 
 pub fn limits() -> Limits {
-    Limits { max_pages: 16, max_table: 10_000, max_call_depth: 500, fuel: 50_000 }
+    Limits { max_pages: 128, max_table: 10_000, max_call_depth: 500, fuel: 50_000 }
 }
 
 fn arg_for(t: ValType, rng: &mut Rng) -> Val {
